@@ -86,7 +86,11 @@ class _GetData(Contract):
         return [(E.NoMoreData, at_eof), oserror(c)]
 
     def exc_post(self, c):
-        return list(RI(c, c.a["unreader"]))
+        u = c.a["unreader"]
+        out = list(RI(c, u))
+        if c.exc is not None and c.exc.cls.__name__ in ("NoMoreData", "StopIteration"):
+            out.append(("at-end-of-stream-nothing-consumed", And(u_pos(c, u) == N, u_pos(c, u, c.old) == N)))
+        return out
 
     def post(self, c):
         u = c.a["unreader"]
